@@ -967,7 +967,8 @@ func runC07(r *Run) {
 		if rng.Pct(50) {
 			// documents with awkward keys
 			keys := []string{"a", "b c", "x/y", "t~u", "0", "12", "K", "k", " k", "é", "a.b", "-", "_u", "a~1b", "a~0b", "~", "~1", "~0~1", "a~01", "/", "a/~b",
-				"liquid", "costarring", "declinate", "macallums", "altarage", "zinke", "plumless", "buckeroo", "Aa", "BB", "007", "010", "m²", "Ⅷ", "CO₂", "½", "二〇二四", "K", "İ", "struct field", "not found", "key"}
+				"liquid", "costarring", "declinate", "macallums", "altarage", "zinke", "plumless", "buckeroo", "Aa", "BB", "007", "010", "m²", "Ⅷ", "CO₂", "½", "二〇二四", "K", "İ", "struct field", "not found", "key",
+				"OR", "or", "IN", "in", "AS", "as", "ALL", "all", "ANY", "any", "NOT", "not", "IS", "is", "EMPTY", "empty", "AND", "and", "MATCHES", "matches", "CONTAINS", "contains", "Or", "nOt"}
 			leaf := pick(rng, []interface{}{1, "a", []interface{}{1, "a"}, map[string]interface{}{"z": 1}, nil, ""})
 			k1, k2, k3 := pick(rng, keys), pick(rng, keys), pick(rng, keys)
 			d = map[string]interface{}{"m": map[string]interface{}{k1: map[string]interface{}{k2: leaf, k3: []interface{}{leaf, 1}}}, "l": []interface{}{1}}
@@ -1213,6 +1214,11 @@ func runC08(r *Run) {
 			m := c1.desc()
 			m["datum_b"] = describe(d2)
 			r.Violate("hidden-field-observable", e, m, o1+" vs "+o2)
+		} else if t1, t2 := rawOutcome(&c1), rawOutcome(&c2); t1 != t2 {
+			// "identical outcomes" includes the text of the error: a message that prints the selected value prints its hidden fields
+			m := c1.desc()
+			m["datum_b"] = describe(d2)
+			r.Violate("hidden-field-in-error-text", opSig(c1.ast), m, t1+" vs "+t2)
 		}
 		r.Model(c1.cmd(), o1, c1.desc())
 		r.Model(c2.cmd(), o2, c2.desc())
@@ -1255,6 +1261,10 @@ func runC08(r *Run) {
 			m := c1.desc()
 			m["datum_b"] = describe(zb)
 			r.Violate("hidden-field-observable", "zero-visible|"+e, m, o1+" vs "+o2)
+		} else if t1, t2 := rawOutcome(&c1), rawOutcome(&c2); t1 != t2 {
+			m := c1.desc()
+			m["datum_b"] = describe(zb)
+			r.Violate("hidden-field-in-error-text", "zero-visible|"+e, m, t1+" vs "+t2)
 		}
 		r.Model(c1.cmd(), o1, c1.desc())
 		r.Model(c2.cmd(), o2, c2.desc())
